@@ -6,6 +6,9 @@ import HtaVerif.Spec.C05
 import HtaVerif.Spec.C15
 import HtaVerif.Spec.C14
 import HtaVerif.Spec.C06
+import HtaVerif.Spec.C02
+import HtaVerif.Model.C01
+import HtaVerif.Model.C12
 /-!
 `htadrv` — line protocol driver. One JSON request per input line, one JSON answer per
 output line. Imports only `Model/*` and `Spec/*` (core Lean), never a proof file.
@@ -70,6 +73,27 @@ def aggrOut (o : C05.AggrOut) : Json :=
   Json.mkObj [("named", Json.arr (o.named.map fun s =>
       Json.arr #[Json.str s.name, jInt s.sum, jInt s.max, jInt s.min, jInt s.count]).toArray),
     ("others", match o.others with | none => Json.null | some v => jInt v)]
+
+def optInt (j : Json) : Except String (Option Int) :=
+  match j with
+  | Json.null => pure none
+  | v => do return some (← getInt v)
+
+def optStr (j : Json) : Except String (Option String) :=
+  match j with
+  | Json.null => pure none
+  | v => do return some (← getStr v)
+
+/-- `[ts, dur|null, cat|null, name, pid, tid, stream|null, corr|null]` (times in 1/1000 us) -/
+def rawEntry (j : Json) : Except String C01.RawEntry := do
+  let a ← getArr j
+  if a.size != 8 then throw "entry: expected 8 fields"
+  return { ts := ← getInt a[0]!, dur := ← optInt a[1]!, cat := ← optStr a[2]!, name := ← getStr a[3]!,
+           pid := ← getInt a[4]!, tid := ← getInt a[5]!, stream := ← optInt a[6]!, corr := ← optInt a[7]! }
+
+def prow (r : C01.PRow) : Json :=
+  Json.arr #[jInt r.idx, jInt r.ts, jInt r.dur, jInt r.fin, jInt r.pid, jInt r.tid, jInt r.stream, jInt r.corr,
+    Json.str r.name, Json.str r.cat]
 
 def handle (j : Json) : Except String Json := do
   let op ← getStr (← field j "op")
@@ -166,6 +190,28 @@ def handle (j : Json) : Except String Json := do
       Json.arr #[jInt s, jInt o.hostWait, jInt o.kernelWait, jInt o.other, Json.bool o.hostPresent,
         Json.bool o.kernelPresent, jInt n]
     return Json.mkObj [("streams", Json.arr out.toArray)]
+  | "c02" =>
+    let rs ← rows (← field j "rows")
+    let out := (C02.run rs).map fun (i, l) => Json.arr #[jInt i, jInt l]
+    return Json.mkObj [("links", Json.arr out.toArray)]
+  | "c01" =>
+    let files ← (← getArr (← field j "files")).toList.mapM fun f => do
+      (← getArr f).toList.mapM rawEntry
+    let parsed := files.map C01.parseRank
+    let (c, aligned) := C01.align parsed
+    let enc := fun (rs : List (List C01.PRow)) => Json.arr (rs.map fun l => Json.arr (l.map prow).toArray).toArray
+    return Json.mkObj [("min_ts", jInt c), ("parsed", enc parsed), ("aligned", enc aligned)]
+  | "c12.iter" =>
+    let rs ← rows (← field j "rows")
+    match C12.runIter rs with
+    | none => return Json.mkObj [("raises", Json.bool true)]
+    | some l => return Json.mkObj [("iters", Json.arr (l.map fun (i, k) => Json.arr #[jInt i, jInt k]).toArray)]
+  | "c12.load" =>
+    let ranks ← (← getArr (← field j "ranks")).toList.mapM rows
+    let il ← getBool (← field j "include_last")
+    let n := C12.countStepSymbols ranks
+    let out := (C12.load il n ranks).map fun l => Json.arr (l.map fun r => jInt r.idx).toArray
+    return Json.mkObj [("n_step_symbols", jInt n), ("kept", Json.arr out.toArray)]
   | _ => throw s!"unknown op {op}"
 
 partial def loop (hin hout : IO.FS.Stream) : IO Unit := do
